@@ -386,7 +386,9 @@ func genAll(rng *rand.Rand, tier string) []interface{} {
 		add(followThenLeave(p, []string{"close", "drop"}[rng.Intn(2)]))
 	}
 	add(followFull(0, "end"))
-	add(followFullDropEmit(3 + rng.Intn(3)))
+	if !quick {
+		add(followFullDropEmit(2 + rng.Intn(3)))
+	}
 	add(stopShared(2, "close"))
 	add(stopShared(3, "drop"))
 	if !quick {
